@@ -125,6 +125,10 @@ class Frame:
         raise PyRaise(SExc(NameError, (name,)))
 
     def assign(self, name, value, nonlocal_names=()):
+        if name in getattr(self, "global_names", ()):
+            # a name this function declared `global` (s_Global): the store goes to the modelled module state
+            V.cur().ghost["globals"][name] = value
+            return
         if name in nonlocal_names:
             f = self.parent
             while f is not None:
@@ -555,7 +559,18 @@ class Interp:
         fr.nonlocals = tuple(getattr(fr, "nonlocals", ())) + tuple(s.names)
 
     def s_Global(self, st, s, fr):
-        raise Unsupported("global statement")
+        """`global a, b`: later stores to these names in this function body go to the module state.  Only for names
+        the contract under verification models as process-global state (`globals_`: their value at entry is an
+        arbitrary member of the declared shape, loads see the last store -- Frame.lookup); anything else stays
+        Unsupported.  CPython rejects a function that uses or assigns a name before its `global` declaration
+        (SyntaxError), so handling the declaration when it is executed is the same as handling it at compile time."""
+        have = st.ghost.get("globals") or {}
+        for n in s.names:
+            if n not in have:
+                raise Unsupported(f"global statement for {n!r}, which the contract's globals_ does not model")
+            if n in fr.locals:
+                raise Unsupported(f"global statement for {n!r} after a local binding")
+        fr.global_names = tuple(getattr(fr, "global_names", ())) + tuple(s.names)
 
     def s_Import(self, st, s, fr):
         raise Unsupported("import inside function")
@@ -1442,6 +1457,8 @@ class Interp:
             raise Unsupported(f"exception attribute {name}")
         if isinstance(obj, SInt) and name == "to_bytes":
             return Method(obj, name)  # int.to_bytes(1, order): see call_method
+        if isinstance(obj, SAtom) and name == "lower" and all(isinstance(d, str) for d in obj.domain):
+            return Method(obj, name)  # str.lower() of a value from a finite set of str constants: see call_method
         if isinstance(obj, Sym):
             raise Unsupported(f"attribute {name} of {type(obj).__name__}")
         if isinstance(obj, tuple) and name in ("index", "count"):
